@@ -163,6 +163,7 @@ def real_pipeline(ck, backend, pid, ninja, maxlen):
                                          for _ in ()):
             pass
     ck.note('positions', ap.POSITIONS)
+    ck.note('slots_failing_in_their_group', [list(x) for x in ap.LAST_REDO])
     ck.note('env_model_mismatches',
             st['info'].get('ENV-MODEL-MISMATCH', 0))
     ck.drift = st['info'].get('SPEC-DRIFT', 0)
